@@ -497,7 +497,7 @@ fn number<'a>() -> impl Parser<'a, ParserInput<'a>, Literal, ParserError<'a>> {
     integer
         .then(optional_component(frac, |f| f))
         .then(optional_component(exp, |e| e))
-        .map(|((int_part, frac_part), exp_part)| {
+        .try_map(|((int_part, frac_part), exp_part), span| {
             // Construct the number string and remove underscores
             let num_str = format!("{}{}{}", int_part, frac_part, exp_part)
                 .chars()
@@ -506,11 +506,14 @@ fn number<'a>() -> impl Parser<'a, ParserInput<'a>, Literal, ParserError<'a>> {
 
             // Try to parse as integer first, then as float
             if let Ok(i) = num_str.parse::<i64>() {
-                Literal::Integer(i)
-            } else if let Ok(f) = num_str.parse::<f64>() {
-                Literal::Float(f)
-            } else {
-                Literal::Integer(0) // Fallback
+                return Ok(Literal::Integer(i));
+            }
+            // A number that no literal can hold is an error: an integer beyond i64 would
+            // silently be rounded to a float and a float beyond f64 would become `inf`
+            let is_integer = frac_part.is_empty() && exp_part.is_empty();
+            match num_str.parse::<f64>() {
+                Ok(f) if f.is_finite() && !is_integer => Ok(Literal::Float(f)),
+                _ => Err(Simple::new(None, span)),
             }
         })
 }
